@@ -234,7 +234,7 @@ def sampler_payload(draw, depth):
 def metamodule_payload(draw, depth):
     inner = draw(project_spec(depth=depth - 1, max_modules=4, max_patterns=1, light=True)) if depth > 0 else {"modules": [], "patterns": [], "fields": {}, "links": []}
     n = draw(st.one_of(st.sampled_from([0, 1, 2, 27, 95, 96]), st.integers(0, 96)))
-    p = {"project": inner, "count": n}
+    p = {"project": inner, "count": n, "count_first": draw(st.booleans())}
     # mappings onto controllers of embedded modules (0-based controller index, as the library uses it)
     spec = specmodel.load()
     targets = []
@@ -247,6 +247,9 @@ def metamodule_payload(draw, depth):
     maps = []
     k = draw(st.integers(0, min(n, 6)))
     idxs = draw(st.lists(st.integers(0, max(0, n - 1)), min_size=k, max_size=k, unique=True)) if n else []
+    # the mapping table always has 96 entries: entries at and beyond the count are data too
+    beyond = draw(st.lists(st.sampled_from(sorted({min(95, n), min(95, n + 1), 63, 64, 95})), max_size=2, unique=True)) if draw(st.booleans()) else []
+    idxs = idxs + [i for i in beyond if i not in idxs]
     for i in idxs:
         if targets and draw(st.booleans()):
             mi, ci, _ = draw(st.sampled_from(targets))
@@ -256,7 +259,7 @@ def metamodule_payload(draw, depth):
     p["mappings"] = maps
     kl = draw(st.integers(0, min(n, 4)))
     lidx = draw(st.lists(st.integers(0, max(0, n - 1)), min_size=kl, max_size=kl, unique=True)) if n else []
-    p["labels"] = [[i, draw(vs.text_no_nul(12))] for i in lidx]
+    p["labels"] = [[i, draw(st.one_of(vs.text_no_nul(12), vs.text_no_nul(12), st.sampled_from(["cutoff", "res", "mix", "vol", "depth", "rate"]), vs.long_text()))] for i in lidx]
     kc = draw(st.integers(0, min(n, 3)))
     cidx = draw(st.lists(st.integers(0, max(0, n - 1)), min_size=kc, max_size=kc, unique=True)) if n else []
     p["user_cmid"] = [[i] + draw(cmid_entry) for i in cidx]
@@ -324,6 +327,11 @@ def module_spec(draw, in_project=True, depth=1, types=None, tname=None, dense=Fa
         ms["ctor"] = [s for s in ms["sets"][:k] if s[0] in fixed and not any(d.kind == "dependent" and d.depends_on == s[0] for d in mt.controllers)]
         names = {s[0] for s in ms["ctor"]}
         ms["sets"] = [s for s in ms["sets"] if s[0] not in names]
+    # the groups of assignments happen in any order (MetaModule: the payload stays last, because its
+    # count is also an option and the recipe's count is what the checks' models take as final)
+    if draw(st.booleans()):
+        head = ["sets", "options", "common", "cmid"] + ([] if tname == "MetaModule" else ["payload"])
+        ms["phase_order"] = list(draw(st.permutations(head))) + (["payload"] if tname == "MetaModule" else [])
     return ms
 
 
@@ -537,12 +545,16 @@ def apply_payload(mod, tname, p):
     elif tname == "MetaModule":
         if p.get("project") is not None:
             fill_project(mod.project, p["project"])
+        # the count and the mapping table are independent attributes: either may be assigned first
+        if p.get("count_first"):
+            mod.user_defined_controllers = p.get("count", 0)
         for i, mi, ci in p.get("mappings", []):
             if p.get("_in_place"):
                 mod.mappings.values[i].module, mod.mappings.values[i].controller = mi, ci
             else:
                 mod.mappings.values[i] = cls.Mapping((mi, ci))
-        mod.user_defined_controllers = p.get("count", 0)
+        if not p.get("count_first"):
+            mod.user_defined_controllers = p.get("count", 0)
         for i, text in p.get("labels", []):
             mod.user_defined[i].label = text
         from rv.cmidmap import MidiMessageType, Slope
@@ -571,26 +583,41 @@ def apply_spec(mod, ms):
 
     tname = ms["type"]
     cls = type(mod)
-    for name, v in ms.get("ctor", []) if ms.get("_ctor_as_sets") else []:
-        setattr(mod, name, lib_value(cls, name, v))
-    for name, v in ms.get("sets", []):
-        setattr(mod, name, lib_value(cls, name, v))
-    for name, v in ms.get("options", []):
-        setattr(mod, name, v)
-    for k, v in ms.get("common", {}).items():
-        if k == "color":
-            v = tuple(v)
-        setattr(mod, k, v)
-    for name, mtype, channel, slope, param in ms.get("cmid", []):
-        mm = mod.controller_midi_maps[name]
-        mm.message_type = MidiMessageType(mtype)
-        mm.channel = channel
-        mm.slope = Slope(slope)
-        mm.message_parameter = param
-    payload = ms.get("payload", {})
-    if ms.get("_ctor_as_sets"):
-        payload = dict(payload, _in_place=True)  # editing an existing object: touch its entries in place
-    apply_payload(mod, tname, payload)
+
+    def do_sets():
+        for name, v in ms.get("ctor", []) if ms.get("_ctor_as_sets") else []:
+            setattr(mod, name, lib_value(cls, name, v))
+        for name, v in ms.get("sets", []):
+            setattr(mod, name, lib_value(cls, name, v))
+
+    def do_options():
+        for name, v in ms.get("options", []):
+            setattr(mod, name, v)
+
+    def do_common():
+        for k, v in ms.get("common", {}).items():
+            if k == "color":
+                v = tuple(v)
+            setattr(mod, k, v)
+
+    def do_cmid():
+        for name, mtype, channel, slope, param in ms.get("cmid", []):
+            mm = mod.controller_midi_maps[name]
+            mm.message_type = MidiMessageType(mtype)
+            mm.channel = channel
+            mm.slope = Slope(slope)
+            mm.message_parameter = param
+
+    def do_payload():
+        payload = ms.get("payload", {})
+        if ms.get("_ctor_as_sets"):
+            payload = dict(payload, _in_place=True)  # editing an existing object: touch its entries in place
+        apply_payload(mod, tname, payload)
+
+    phases = {"sets": do_sets, "options": do_options, "common": do_common, "cmid": do_cmid, "payload": do_payload}
+    # the groups of assignments are independent of each other: a recipe may ask for any order
+    for ph in ms.get("phase_order") or ["sets", "options", "common", "cmid", "payload"]:
+        phases[ph]()
     return mod
 
 
